@@ -32,6 +32,7 @@ ids('C01', {401: 'insert: return value', 411: 'insert_key_value: return value', 
             444: 'IndexMut write not observed', 451: 'remove: return value', 461: 'remove_entry: return value',
             471: 'retain predicate saw a non-live pair', 472: 'retain called the predicate fewer times than entries',
             473: 'retain: mutation through &mut V lost', 482: 'cleared map not reusable', 491: 'drain: yielded pairs', 492: 'drain: count'})
+ids('C02', {714: 'rejected argument not destroyed', 715: 'destruction/creation count off after the rejection', 201: '', 202: '', 203: '', 211: '', 214: ''})
 ids('C02 C12', {402: 'insert: returned object is not the old value', 403: 'insert: supplied duplicate key not destroyed / new key not kept',
                 412: 'insert_key_value: returned objects are not the old key/value', 413: 'insert_key_value: supplied key not stored',
                 423: 'checked_insert: arguments not destroyed exactly once', 452: 'remove: returned object is not the stored value',
@@ -88,6 +89,7 @@ ids('C12', {433: 'get_key_value exposes a key object that is not the stored one'
 ids('C19 C06', {1901: 'rendered length differs', 1902: 'rendered bytes differ', 1903: 'formatting returned Err', 1904: 'container changed by formatting', 202: ''})
 ids('C20', {2001: 'announced length != len()', 2002: 'number of emitted entries != len()', 2003: 'decoded container differs from the original',
             2004: 'serialisation or deserialisation failed', 811: 'container changed / decoded contents differ', 100: ''})
+ids('C06', {1501: '', 1502: '', 451: '', 206: '', 100: ''})
 ids('C06', {804: 'set-algebra item outside the left operand', 1303: 'get_disjoint_mut reference outside the map', 501: 'returned reference points outside the container value'})
 
 # engine-level result classes that count for every property whose harness shows them
@@ -146,6 +148,7 @@ fam('c03_shapes', 'g_full', [(n, 0) for n in (0, 1, 2, 3)] + [(n, 1) for n in (0
 C04F1 = 'c04_clone c04_clear c04_retain c04_insert c04_remove c04_set_ops c04_drops'
 fam('c04_insert c04_remove c04_set_ops', 'g_panic', [0, 1, 2, 3], [4, 5], dprofiles=('rel', 'dbg'))
 fam('c04_clone c04_clear c04_retain', 'g_panic', [1, 2, 3], [4, 5, 6], dprofiles=('rel', 'dbg'))   # N=0: no user callback is made
+fam('c04_clone_from', 'g_panic', [1, 2], [3])
 fam('c04_drops', 'g_panic', [1, 2, 3], [4, 5], dprofiles=('rel', 'dbg'))
 fam('c04_lookup c04_entry c04_disjoint', 'g_panic', [1, 2, 3], [4, 5], dprofiles=('rel', 'dbg'))
 fam('c04_from_array', 'g_panic', [2, 3], [4, 5])
@@ -162,6 +165,7 @@ fam('c13_disjoint_tok', 'g_misc', [1, 2, 3], [4, 5])
 fam('c15_clone c15_set_clone c16_from_array c16_set_from_array', 'g_misc', [0, 1, 2, 3], [4, 5], dprofiles=('rel', 'dbg'))
 fam('c15_clone_nodrop', 'g_misc', [1, 2, 3], [4, 5], dprofiles=('rel', 'dbg'))
 fam('c15_clone_from', 'g_misc', [1, 2, 3], [4])
+fam('c06_big', 'g_misc', [3], [], unwind=lambda c: 6)
 fam('c16_from_iter', 'g_misc', [(0, 1), (1, 2), (2, 3), (3, 4), (2, 4)], [(3, 5), (4, 5)], profiles=('rel', 'dbg'))
 fam('c16_set_from', 'g_misc', [(1, 2), (2, 3), (3, 4)], [(4, 5)])
 fam('c18_insert_unchecked', 'g_misc', [1, 2, 3], [4, 5], profiles=('rel', 'dbg'))
@@ -194,12 +198,13 @@ PROPS = {
     'C19': dict(fams='c19_map c19_set c19_nested c19_map_iters c19_set_iters'),
     'C02': dict(fams='c01_insert c01_insert_kv c01_checked_insert c01_lookup c01_remove c01_remove_entry c01_retain c01_clear c01_drain_all '
                      'c10_into_iter c10_into_keys c10_into_values c10_set_into_iter c10_drain c10_set_drain c10_provided c10_set_provided c10_drain_methods c10_set_drain_methods '
-                     'c07_insert c07_replace c07_remove c07_take c07_retain c07_clear c07_drain c07_extend c11_or c11_variants c11_key_and_modify c16_from_iter'),
+                     'c07_insert c07_replace c07_remove c07_take c07_retain c07_clear c07_drain c07_extend c11_or c11_variants c11_key_and_modify c16_from_iter '
+                     'c03_insert c03_insert_kv c03_or_insert c03_vacant_insert c03_set_insert c03_checked_full c03_from_iter c03_set_extend'),   # rejected arguments destroyed exactly once
     'C12': dict(fams='c01_insert c01_insert_kv c01_checked_insert c01_lookup c01_remove_entry c03_replace_full c07_insert c07_replace c07_lookup c07_take '
                      'c09_iter c09_set_iter c10_into_iter c10_set_into_iter c11_or c11_variants c11_key_and_modify c16_from_iter c16_from_array'),
-    'C06': dict(fams='c06_refs c06_refs_set c01_insert c01_lookup c01_remove c01_retain c01_clear c01_drain_all c09_iter c09_iter_mut c10_into_iter c10_drain '
+    'C06': dict(fams='c06_big c06_refs c06_refs_set c01_insert c01_lookup c01_remove c01_retain c01_clear c01_drain_all c09_iter c09_iter_mut c10_into_iter c10_drain '
                      'c07_insert c07_remove c07_lookup c08_union c08_intersection c08_difference c08_symdiff c08_sub c14_map c14_set c15_clone c16_from_iter c13_disjoint c06_fmt_specs c19_map c19_set c19_map_iters',
-                fams_std='c06_fmt_specs c19_map c19_set c06_refs c01_insert c01_remove c15_clone c14_map c08_sub c10_drain',
+                fams_std='c06_big c06_fmt_specs c19_map c19_set c06_refs c01_insert c01_remove c15_clone c14_map c08_sub c10_drain',
                 gate='nostd_build'),
     'C17': dict(fams='c17_insert c17_remove c17_lookup c17_disjoint c17_set c17_two'),
     'C13': dict(fams='c13_disjoint c13_disjoint_tok'),
@@ -208,7 +213,7 @@ PROPS = {
     'C18': dict(fams='c18_insert_unchecked c18_disjoint_unchecked'),
     'C11': dict(fams='c11_or c11_variants c11_key_and_modify '
                      'c03_or_insert c03_or_insert_with c03_or_insert_with_key c03_vacant_insert c03_or_default'),   # full map: entry insertion must panic exactly like insert
-    'C04': dict(fams=C04F1 + ' c04_lookup c04_entry c04_disjoint c04_from_array c04_from_iter c04_set_extend c04_set_algebra'),
+    'C04': dict(fams=C04F1 + ' c04_clone_from c04_lookup c04_entry c04_disjoint c04_from_array c04_from_iter c04_set_extend c04_set_algebra'),
     'C05': dict(fams='c05_panics c01_insert c01_insert_kv c01_checked_insert c01_remove c01_remove_entry c01_retain c01_clear c01_drain_all c01_lookup c01_index '
                      'c07_insert c07_replace c07_remove c07_take c07_retain c10_drain '
                      'c03_insert c03_insert_kv c03_or_insert c03_or_insert_with c03_or_insert_with_key c03_vacant_insert c03_or_default c03_set_insert c03_from_iter c03_set_extend '
